@@ -240,7 +240,7 @@ def tools(force=False):
     return _exes
 
 
-def run_batch(insts, impl='vpsc', tag='b', enum=False, timeout=240, _retry=True):
+def run_batch(insts, impl='vpsc', tag='b', enum=False, timeout=240, _retry=True, kkt=False):
     """run the real solver (impl: vpsc | avoid) and the driver on the instances.
     returns (real: id -> [results], drv: id -> dict, errors: [str], times)"""
     ex = tools()
@@ -256,7 +256,7 @@ def run_batch(insts, impl='vpsc', tag='b', enum=False, timeout=240, _retry=True)
         if rc in (126, 127) or 'No such file' in err or not os.path.exists(ex[impl]):
             if _retry:
                 tools(force=True)
-                return run_batch(insts, impl, tag, enum, timeout, _retry=False)
+                return run_batch(insts, impl, tag, enum, timeout, _retry=False, kkt=kkt)
         # the harness died or hung inside the solver: the last announced instance is the culprit
         last = None
         for line in out.split('\n'):
@@ -266,12 +266,12 @@ def run_batch(insts, impl='vpsc', tag='b', enum=False, timeout=240, _retry=True)
     with open(base + '.drv.txt', 'w') as f:
         for ins in insts:
             f.write(inst_drv_text(ins, real.get(ins['id'], [])))
-    rc, out, err, dt2 = C.sh([ex['drv'], base + '.drv.txt'] + (['enum'] if enum else []), timeout=timeout)
+    rc, out, err, dt2 = C.sh([ex['drv'], base + '.drv.txt'] + (['enum'] if enum else []) + (['kkt'] if kkt else []), timeout=timeout)
     drv = parse_drv(out)
     if rc != 0:
         if (rc in (126, 127) or not os.path.exists(ex['drv'])) and _retry:
             tools(force=True)
-            return run_batch(insts, impl, tag, enum, timeout, _retry=False)
+            return run_batch(insts, impl, tag, enum, timeout, _retry=False, kkt=kkt)
         errors.append({'kind': 'driver', 'rc': rc, 'stderr': err[-1500:]})
     for p in (base + '.cpp.txt', base + '.drv.txt'):
         try:
